@@ -183,6 +183,8 @@ class PyList(Value):
         new = as_seq(interp, v)
         if self.seq is None and new.is_concrete_len():
             self.items.extend(new.py_items())
+        elif self.seq is None and not self.items:
+            self.items, self.seq = None, new          # [] extended by a sequence IS that sequence (no concatenation term)
         else:
             r = self.as_seq().concat(new)
             self.items, self.seq = None, r
@@ -368,12 +370,30 @@ class SetLen(Value):
     def __init__(self, s):
         self.s = s
 
+    def _against_own_length(self, other):
+        """len(set(xs)) compared with len(xs): returns the term 'xs has no duplicate' or None"""
+        src = getattr(self.s, 'source_seq', None)
+        if src is None or concrete(other) is not None or not is_z3(other):
+            return None
+        import z3 as _z3
+        if not _z3.eq(_z3.simplify(to_z3(other)), _z3.simplify(to_z3(src.length))):
+            return None
+        i, j = fresh_int('i'), fresh_int('j')
+        n = to_z3(src.length)
+        return _z3.ForAll([i, j], _z3.Implies(_z3.And(0 <= i, i < j, j < n), _z3.Not(zbool(z_eq(src.get(i), src.get(j))))))
+
     def py_compare(self, interp, op, other, refl):
         if refl:
             op = {'Gt': 'Lt', 'Lt': 'Gt', 'GtE': 'LtE', 'LtE': 'GtE'}.get(op, op)
+        d = self._against_own_length(other)
+        if d is not None:       # len(set(xs)) <= len(xs) always; equality iff no duplicate
+            return {'Eq': d, 'NotEq': z_not(d), 'Lt': z_not(d), 'LtE': True, 'Gt': False, 'GtE': d}[op]
         return set_len_cmp(interp, self.s, op, concrete(other))
 
     def py_eq(self, interp, other):
+        d = self._against_own_length(other)
+        if d is not None:
+            return d
         return set_len_cmp(interp, self.s, 'Eq', concrete(other))
 
 
@@ -382,7 +402,9 @@ def make_set(interp, items):
         seq = items
         if seq.is_concrete_len():
             return make_set(interp, seq.py_items())
-        return SetV(lambda x: seq.exists(lambda k, e: z_eq(e, x)))
+        r = SetV(lambda x: seq.exists(lambda k, e: z_eq(e, x)))
+        r.source_seq = seq              # len(set(xs)) against len(xs): "xs has no duplicate"
+        return r
     if isinstance(items, GenV):
         return make_set(interp, items.r)
     if isinstance(items, PyList):
@@ -458,8 +480,18 @@ def contains(interp, container, x):
         raise Unsupported(f'`in` on {container!r}')
     if seq.kind == 'str' and isinstance(x, (str, SSeq)):
         sub = SSeq.lift(x)
-        if concrete(sub.length) != 1:
-            raise Unsupported('substring test with a multi-character pattern on a symbolic string')
+        m = concrete(sub.length)
+        if m is None:
+            raise Unsupported('substring test with a pattern of symbolic length on a symbolic string')
+        if m == 0:
+            return True
+        if m > 1:
+            # pattern occurs at some offset k: 0 <= k, k + m <= len, seq[k + j] == pattern[j] for every j < m
+            import z3 as _z3
+            k = fresh_int('sub')
+            n = to_z3(seq.length)
+            body = [zbool(z_eq(seq.get(k + j), sub.get(j))) for j in range(m)]
+            return _z3.Exists([k], _z3.And(k >= 0, k + m <= n, *body))
         x = sub.get(0)
     return seq.exists(lambda k, e: z_eq(e, x))
 
@@ -919,6 +951,19 @@ def _enumerate(interp, v, start=0):
     return [(start + i, x) for i, x in enumerate(interp.iter_concrete(v))]
 
 
+def _map(interp, f, *vs):
+    """map(f, xs[, ys...]): f applied position by position (a sequence: consumed once by the callers modelled here)"""
+    if len(vs) == 1:
+        seq = as_seq_or_none(interp, vs[0])
+        if seq is not None and not seq.is_concrete_len():
+            return seq.map(lambda x: interp.call(f, [x], {}), 'tuple')
+        return [interp.call(f, [x], {}) for x in interp.iter_concrete(vs[0])]
+    rows = _zip(interp, *vs)
+    if isinstance(rows, SSeq):
+        return rows.map(lambda t: interp.call(f, list(t), {}), 'tuple')
+    return [interp.call(f, list(t), {}) for t in rows]
+
+
 def _zip(interp, *vs):
     seqs = [as_seq_or_none(interp, v) for v in vs]
     if all(s is not None for s in seqs) and any(not s.is_concrete_len() for s in seqs):
@@ -1093,6 +1138,7 @@ BUILTINS = {
     'range': PyFunc(_range, 'range'),
     'enumerate': PyFunc(_enumerate, 'enumerate'),
     'zip': PyFunc(_zip, 'zip'),
+    'map': PyFunc(_map, 'map'),
     'reversed': PyFunc(_reversed, 'reversed'),
     'any': PyFunc(lambda interp, v: _quant(interp, v, False), 'any'),
     'all': PyFunc(lambda interp, v: _quant(interp, v, True), 'all'),
